@@ -26,17 +26,47 @@ impl<T> AtomicOption<T> {
     }
 
     #[inline]
+    #[cfg_attr(may_verif, track_caller)]
     pub fn store(&self, t: T) {
+        #[cfg(may_verif)]
+        return crate::verif::step(
+            std::panic::Location::caller(),
+            "opt.store",
+            self as *const _ as usize,
+            |_| 1,
+            || self.inner.store(Some(t)),
+        );
+        #[cfg(not(may_verif))]
         self.inner.store(Some(t));
     }
 
     #[inline]
+    #[cfg_attr(may_verif, track_caller)]
     pub fn take(&self) -> Option<T> {
+        #[cfg(may_verif)]
+        return crate::verif::step(
+            std::panic::Location::caller(),
+            "opt.take",
+            self as *const _ as usize,
+            |r: &Option<T>| r.is_some() as u64,
+            || self.inner.take(),
+        );
+        #[cfg(not(may_verif))]
         self.inner.take()
     }
 
     #[inline]
+    #[cfg_attr(may_verif, track_caller)]
     pub fn clear(&self) {
+        #[cfg(may_verif)]
+        return crate::verif::step(
+            std::panic::Location::caller(),
+            "opt.clear",
+            self as *const _ as usize,
+            |_| 0,
+            || self.inner.store(None),
+        );
+        #[cfg(not(may_verif))]
         self.inner.store(None)
     }
 }
